@@ -501,7 +501,7 @@ func init() {
 				}
 				c.Check(IsCallOf(hc)(res[0]), ks.key("handleInbound-return-err"), c.Pos(r), "non-nil return is handleChunk's (ABORT) error", "handleInbound returns an error that does not come from handleChunk: malformed input would kill the read loop")
 			}
-			pts := c.Fn("Association.pushPayloadDataToStream")
+			pts := c.deliverFn()
 			apv := c.Fn("Association.abortProtocolViolation")
 			found := false
 			forEachInstr(pts, func(in ssa.Instruction) {
